@@ -289,7 +289,63 @@ def _accessor_problems(cls):
             prob.append("accessor-column-class")
     if inst.column_index("\x00no such column") is not None:
         prob.append("accessor-unknown-name")
+    # descriptions: the definitions' descriptions (they are part of the compared layout), by name and in layout order
+    desc = cls.__column_desc__()
+    if list(desc.keys()) != names:
+        prob.append("accessor-description-keys")
+    for n in names:
+        if inst.column_description(n) != desc[n]:
+            prob.append("accessor-column-description")
+    if inst.column_description("\x00no such column") is not None or inst.column_class("\x00no such column") is not None:
+        prob.append("accessor-unknown-name")
+    if inst.column_descriptions() != names:          # pinned by the library's tests: the described names, in layout order
+        prob.append("accessor-column-descriptions")
+    basic = cls.version() == cls.annotation_spec()
+    if cls.is_basic() is not basic or inst.is_basic() is not basic:
+        prob.append("accessor-is-basic")
+    if str(inst) != cls.version():
+        prob.append("accessor-str")
+    import maflib.scheme_factory as sf
+    cols = sf.scheme_to_columns(inst)
+    if [(c.name, c.cls, c.desc) for c in cols] != [(n, cls.__column_dict__()[n], desc[n]) for n in names]:
+        prob.append("accessor-scheme-to-columns")
     return sorted(set(prob))
+
+
+def _base_api_problems():
+    """the fixed parts of maflib.schemes / scheme_factory the factory's results rest on"""
+    import maflib.scheme_factory as sf
+    from collections import OrderedDict
+    from maflib.column import MafColumnRecord
+    from maflib.schemes import MafScheme, NoRestrictionsScheme
+    prob = []
+    if MafScheme.is_basic() is not False:
+        prob.append("abstract-scheme-is-basic")
+    T = type("T", (MafScheme,), {})
+    T.version = classmethod(lambda c: "v1")
+    T.annotation_spec = classmethod(lambda c: "v1-a")
+    T.__column_dict__ = classmethod(lambda c: OrderedDict([("x", MafColumnRecord), ("y", MafColumnRecord)]))
+    t = T()
+    if t.column_names() != ["x", "y"] or t.column_description("y") != "No description for column 'y'" \
+            or t.column_descriptions() != ["x", "y"] or t.is_basic() or str(t) != "v1" or len(t) != 2:
+        prob.append("subclass-defaults")
+    for f in (NoRestrictionsScheme.__column_dict__, NoRestrictionsScheme.__column_desc__):
+        try:
+            f()
+            prob.append("no-restrictions-column-dict-callable")
+        except ValueError:
+            pass
+    n = NoRestrictionsScheme(column_names=["a", "b"])
+    if n.column_names() != ["a", "b"] or n.column_class("a") is not MafColumnRecord or n.column_index("b") != 1 \
+            or n.column_description("a") != "" or n.column_descriptions() != ["a", "b"] or n.is_basic() \
+            or str(n) != NOREST[0] or n.annotation_spec() != NOREST[1] or len(n) != 2:
+        prob.append("no-restrictions-instance")
+    fn = sf.get_built_in_filenames()
+    if len(fn) != len(set(fn)) or not fn or not all(f.endswith("json") and os.path.isfile(f) for f in fn):
+        prob.append("built-in-filenames")
+    if sorted(os.path.basename(f) for f in fn) != sorted(n[1:] for n, _ in builtin_files()):
+        prob.append("built-in-filenames-differ-from-schemas-directory")
+    return ["base-api-" + p for p in prob]
 
 
 PROBE_TEXTS = ["", "5", "0", "abc", ".", "-", "Yes", "T", "None"]
@@ -412,7 +468,7 @@ def run_impl(case):
     os.makedirs(WORK, exist_ok=True)
     wd = tempfile.mkdtemp(prefix="c14_", dir=WORK)
     runs = []
-    acc = set()
+    acc = set(_base_api_problems())
     rnv = set()
     rnv_seen = set()
     conj = set()
